@@ -102,6 +102,7 @@ func runC13(c *eng.Ctx, thorough bool) {
 	}
 	c.Clause("R8", "C13.2")
 	c.Floor(nil, "storage-shaped types", len(typs), 25)
+	c.Notes = append(c.Notes, fmt.Sprintf("storage-shaped types discovered by signature: %d: %s", len(typs), strings.Join(typs, ", ")))
 
 	// exceptions, one named symbol each
 	errInReply := map[string]string{
